@@ -20,6 +20,7 @@ let unhex (s : string) : bytes =
 let hex (b : bytes) : string =
   String.concat "" (List.map (fun x -> Printf.sprintf "%02x" (int_of_n x)) b)
 let hex_of_string (s : string) : string = String.concat "" (List.init (String.length s) (fun i -> Printf.sprintf "%02x" (Char.code s.[i])))
+let b_of_s (s : string) : bytes = unhex (hex_of_string s)
 let str (b : bytes) : string =
   String.init (List.length b) (fun i -> Char.chr (int_of_n (List.nth b i) land 255))
 
@@ -146,6 +147,27 @@ let run (cols : string array) : string =
            let f l = String.concat ";" (List.map show_entry l) in
            "OK\t" ^ f a ^ "\t" ^ f b ^ "\t" ^ f c
        | TErr -> "ERR" | TOutOfFuel -> "OUTOFFUEL")
+  (* fam <family> <base> <letter hex or -> <content hex> <payload=hexvalue,..: payload parsers that accept, with their printed value> <heuristic: vname=hexvalue or ->
+     letter "-" means the raw API parse_with_variant(None); otherwise parse_named *)
+  | "fam" ->
+      (match family_named (b_of_s cols.(1)) with
+       | None -> "NOFAMILY"
+       | Some f ->
+           let tbl = if cols.(5) = "" then [] else List.map (fun kv -> match String.split_on_char '=' kv with [k; v] -> (k, unhex v) | _ -> ("", [])) (String.split_on_char ',' cols.(5)) in
+           let pparse p _ = List.assoc_opt (str p) tbl in
+           let hres = if cols.(6) = "-" then None else (match String.split_on_char '=' cols.(6) with [k; v] -> Some (b_of_s k, unhex v) | _ -> None) in
+           let r = named_core pparse ptag f (b_of_s cols.(2)) (unhex cols.(3)) (unhex cols.(4)) hres in
+           (match r with None -> "NONE" | Some (v, x) -> "SOME	" ^ str v ^ "	" ^ hex x))
+  | "famraw" ->
+      (match family_named (b_of_s cols.(1)) with
+       | None -> "NOFAMILY"
+       | Some f ->
+           let tbl = if cols.(5) = "" then [] else List.map (fun kv -> match String.split_on_char '=' kv with [k; v] -> (k, unhex v) | _ -> ("", [])) (String.split_on_char ',' cols.(5)) in
+           let pparse p _ = List.assoc_opt (str p) tbl in
+           let hres = if cols.(6) = "-" then None else (match String.split_on_char '=' cols.(6) with [k; v] -> Some (b_of_s k, unhex v) | _ -> None) in
+           let l = if cols.(3) = "-" then None else Some (unhex cols.(3)) in
+           (match pwv_core pparse f l (unhex cols.(4)) hres with None -> "NONE" | Some (v, x) -> "SOME\t" ^ str v ^ "\t" ^ hex x))
+  | "fampos" -> String.concat ";" (List.map (fun (t, (f, b)) -> str t ^ "|" ^ str f ^ "|" ^ str b) positions)
   | "hdr1" -> (match parse_b1 (unhex cols.(1)) with None -> "ERR" | Some h -> "OK\t" ^ hex (display_b1 h) ^ "\t" ^ hex h.bh_sender_bic)
   | "hdr2" -> (match parse_b2 (unhex cols.(1)) with None -> "ERR" | Some h -> "OK\t" ^ hex (display_b2 h) ^ "\t" ^ hex (message_type_of h))
   | "hdr3" -> "OK\t" ^ hex (user_header_display (unhex cols.(1)))
